@@ -162,6 +162,9 @@ func corpus(w *lib.Writer, pl *pool) {
 		f("gmatch", "abc", "()%1", nil), // C14-4
 		g("hello", "l", str("%x"), nil), // C14-5 (open)
 		g("hello", "l", str("%"), nil),  // C14-5: trailing %
+		f("find", "hello", "lo$", i64(5)),  // seeded C14-3: '$'-anchored fixed-width pattern must honour init
+		f("match", "hello", "lo$", i64(5)), //
+		f("find", "hello", "lo$", i64(4)),  //
 		f("find", "abc", "x*", i64(10)), // C14-6 (fixed earlier for find)
 		f("match", "abc", "()", i64(10)), // C14-6 (fixed)
 		f("match", "abc", "x*", i64(4)),
@@ -596,6 +599,43 @@ func generate(w *lib.Writer, pl *pool, r *lib.Rand, tier string) {
 		runCase(w, pl, in{Fn: "gsub", S: hx(string(all)), P: hx(p), Repl: &replIn{Kind: "str", Str: ""}, Src: "class-sweep"})
 	}
 
+	// (1c) anchored patterns x the whole init window: '$'- and '^'-anchored patterns (fixed-width bodies
+	// and quantified ones) on subjects whose suffix / prefix matches the body, init sweeping
+	// [-len-2, len+2] for find and match, every offset for pm.Find
+	nanch := 36
+	if thorough {
+		nanch = 1500
+	}
+	for n := 0; n < nanch; n++ {
+		body, wit := anchoredBody(r)
+		pre := string(r.Bytes(r.Range(0, 4), []byte("abx5 .")))
+		post := string(r.Bytes(r.Range(0, 3), []byte("abx5 .")))
+		type ps struct{ p, s string }
+		variants := []ps{
+			{body + "$", pre + wit},        // suffix matches
+			{body + "$", pre + wit + post}, // suffix may not match
+			{"^" + body, wit + post},       // prefix matches
+			{"^" + body + "$", wit},
+			{body, pre + wit + post},
+		}
+		v := variants[r.Intn(len(variants))]
+		if n < len(variants) {
+			v = variants[n]
+		}
+		l := len(v.s)
+		for init := -l - 2; init <= l+2; init++ {
+			runCase(w, pl, in{Fn: "find", S: hx(v.s), P: hx(v.p), Init: i64(int64(init)), Src: "anchored-init"})
+			runCase(w, pl, in{Fn: "match", S: hx(v.s), P: hx(v.p), Init: i64(int64(init)), Src: "anchored-init"})
+		}
+		for off := 0; off <= l; off++ {
+			if r.Chance(50) {
+				runCase(w, pl, in{Fn: "pmfind", S: hx(v.s), P: hx(v.p), Off: int64(off), Limit: i64([]int64{-1, 1, 2}[r.Intn(3)]), Src: "anchored-init"})
+			}
+		}
+		runCase(w, pl, in{Fn: "gmatch", S: hx(v.s), P: hx(v.p), Src: "anchored-init"})
+		runCase(w, pl, in{Fn: "gsub", S: hx(v.s), P: hx(v.p), Repl: &replIn{Kind: "str", Str: hx("<%0>")}, Src: "anchored-init"})
+	}
+
 	// (2) grammar-generated longer patterns, (3) malformed stream
 	ngram, nmal, ngsub := 1100, 450, 700
 	if thorough {
@@ -625,4 +665,25 @@ func generate(w *lib.Writer, pl *pool, r *lib.Rand, tier string) {
 		s := subjectFor(r, p)
 		runCase(w, pl, gsubCase(r, p, s, "gsub"))
 	}
+}
+
+// anchoredBody: a pattern body and a string it matches entirely. Mostly fixed-width items
+// (characters, classes, sets, '.', captures, position captures), sometimes a quantified item.
+func anchoredBody(r *lib.Rand) (body, witness string) {
+	type it struct{ p, w string }
+	fixed := []it{{"a", "a"}, {"b", "b"}, {"%d", "5"}, {"[a-c]", "b"}, {".", "x"}, {"%a", "q"}, {"[^%s]", "z"},
+		{"%.", "."}, {"(a)", "a"}, {"()", ""}, {"(%d)(.)", "7k"}, {"[%w_]", "_"}, {"o", "o"}, {"l", "l"}}
+	quant := []it{{"a*", "aa"}, {"%d+", "42"}, {".-", ""}, {"b?", "b"}, {"(a+)", "aaa"}, {"[ab]*", "abba"}}
+	n := r.Range(1, 3)
+	for i := 0; i < n; i++ {
+		var x it
+		if r.Chance(85) {
+			x = fixed[r.Intn(len(fixed))]
+		} else {
+			x = quant[r.Intn(len(quant))]
+		}
+		body += x.p
+		witness += x.w
+	}
+	return
 }
